@@ -91,3 +91,12 @@ package object
 //@   tags C07 C08
 //@   decoder r
 //@   ensures[C08] old(r.len) - old(r.pos) < 24 ==> err != nil
+
+// MethodID resolves a method name to an action id of this very meta-object: the id returned is a key
+// of the method table whose entry carries the requested name, and the return signature handed back
+// is that entry's (C04: a proxy call addresses the method it names, and decodes the answer with that
+// method's return type).
+//@ func (m *MetaObject) MethodID(name string, signature string) (id uint32, sig string, err error)
+//@   tags C04
+//@   pure
+//@   ensures[C04] err == nil ==> has(m.Methods, id) && m.Methods[id].Name == name && m.Methods[id].ReturnSignature == sig
